@@ -29,6 +29,18 @@ def canonicalise(tree: ast.AST) -> None:
       not not X                ->  X
       not (a == b) / (a in b) / (a is b) and their negative forms -> the single comparison
     Line numbers stay those of the original nodes."""
+    # T[k] = A if c else B   ->   if c: T[k] = A else: T[k] = B     (subscript stores only)
+    for node in ast.walk(tree):
+        for fld in ("body", "orelse", "finalbody"):
+            seq = getattr(node, fld, None)
+            if not (isinstance(seq, list) and seq and isinstance(seq[0], ast.stmt)):
+                continue
+            for i, st in enumerate(seq):
+                if isinstance(st, ast.Assign) and len(st.targets) == 1 and isinstance(st.targets[0], ast.Subscript) and isinstance(st.value, ast.IfExp):
+                    a_ = ast.copy_location(ast.Assign(targets=[copy.deepcopy(st.targets[0])], value=st.value.body, lineno=st.lineno), st)
+                    b_ = ast.copy_location(ast.Assign(targets=[copy.deepcopy(st.targets[0])], value=st.value.orelse, lineno=st.lineno), st)
+                    seq[i] = ast.copy_location(ast.If(test=st.value.test, body=[a_], orelse=[b_]), st)
+                    ast.fix_missing_locations(seq[i])
     # X.pop(X.index(y)) as a statement is X.remove(y)
     for node in ast.walk(tree):
         if isinstance(node, ast.Expr) and isinstance(node.value, ast.Call) and isinstance(node.value.func, ast.Attribute) and node.value.func.attr == "pop" and len(node.value.args) == 1:
